@@ -448,3 +448,49 @@ func Interpret(pk []Pkt) (*ParsedFile, error) {
 	}
 	return pf, nil
 }
+
+// LooseRecovery scans b for intact packets at every byte offset (a
+// reader that resynchronises on the magic) and returns, for the given
+// set, the distinct exponents of intact recovery packets with a payload
+// of sliceSize bytes.
+func LooseRecovery(b []byte, setID [16]byte, sliceSize int) map[uint32]bool {
+	out := map[uint32]bool{}
+	for off := 0; off+64 <= len(b); off++ {
+		if b[off] != 'P' || !bytes.Equal(b[off:off+8], Magic) {
+			continue
+		}
+		l := binary.LittleEndian.Uint64(b[off+8 : off+16])
+		if l < 64 || l%4 != 0 || l > uint64(len(b)-off) {
+			continue
+		}
+		end := off + int(l)
+		h := md5.Sum(b[off+32 : end])
+		if !bytes.Equal(h[:], b[off+16:off+32]) {
+			continue
+		}
+		var sid, t [16]byte
+		copy(sid[:], b[off+32:off+48])
+		copy(t[:], b[off+48:off+64])
+		if sid != setID || t != TypeRecv {
+			continue
+		}
+		body := b[off+64 : end]
+		if len(body) != 4+sliceSize {
+			continue
+		}
+		out[binary.LittleEndian.Uint32(body[0:4])] = true
+	}
+	return out
+}
+
+// PacketBoundaries returns the offsets at which packets start, plus the
+// end offset, for a well-formed stream.
+func PacketBoundaries(b []byte) []int {
+	pk, _ := Parse(b)
+	var out []int
+	for _, p := range pk {
+		out = append(out, p.Offset)
+	}
+	out = append(out, len(b))
+	return out
+}
